@@ -496,6 +496,26 @@ class Body:
                 out.add(("const", x["val"] if not isinstance(x["val"], list) else tuple(x["val"])))
             return out
         pl = x["pl"] if "pl" in x else x
+        # field-sensitive step through tuple aggregates: `(a, b).1` derives from b only
+        projs = [p for p in pl["p"] if p != "deref"]
+        if projs and isinstance(projs[0], dict) and "f" in projs[0] and not projs[0].get("adt"):
+            ds0 = self.whole_defs(pl["l"])
+            if len(ds0) == 1 and ds0[0][0] == "stmt" and ds0[0][3]["rv"]["k"] == "agg" and ds0[0][3]["rv"]["what"] == "tuple" \
+                    and len(self.defs.get(pl["l"], [])) == 1:
+                k = projs[0]["f"]
+                ops = ds0[0][3]["rv"]["ops"]
+                if k < len(ops):
+                    o = ops[k]
+                    if o.get("k") == "const":
+                        return self.atoms(o, depth, _seen, interproc)
+                    rest = projs[1:]
+                    for p in rest:
+                        if isinstance(p, dict) and "dc" in p:
+                            out.add(("downcast", p["dc"]))
+                    for (adt, nm) in place_fields({"l": 0, "p": rest}):
+                        if adt:
+                            out.add(("field", adt, nm))
+                    return out | self.atoms({"l": o["pl"]["l"], "p": list(o["pl"]["p"])}, depth, _seen, interproc)
         for (adt, nm) in place_fields(pl):
             if adt:
                 out.add(("field", adt, nm))
